@@ -40,11 +40,12 @@ type World struct {
 	callers map[*ssa.Function][]ssa.CallInstruction
 	Files   map[string]bool // repo-relative files parsed
 
-	roles *roleInfo
-	escMemo map[*ssa.Function]bool
-	spawnMemo map[*ssa.Function]bool
+	roles                                 *roleInfo
+	escMemo                               map[*ssa.Function]bool
+	spawnMemo                             map[*ssa.Function]bool
 	statPaths, statPathFns, statAbsStates int
-	comm  *commTable
+	anchorSet                             map[*ssa.Function]bool
+	comm                                  *commTable
 }
 
 type brokenError struct{ msg string }
@@ -516,4 +517,100 @@ func (w *World) escapesToClient(f *ssa.Function) bool {
 	}
 	w.escMemo[f] = esc
 	return esc
+}
+
+// anchors: functions that rules treat as opaque effects / roots; never inlined as "helpers".
+func (w *World) anchors() map[*ssa.Function]bool {
+	if w.anchorSet != nil {
+		return w.anchorSet
+	}
+	a := map[*ssa.Function]bool{}
+	add := func(f *ssa.Function) {
+		if f != nil {
+			a[f] = true
+		}
+	}
+	add(w.triggerFn())
+	add(w.completionPredicate())
+	add(w.renderFn())
+	add(w.flushFn())
+	add(w.containerLoop())
+	add(w.barLoop())
+	add(w.heapLoop())
+	add(w.distributor())
+	add(w.renderClosure())
+	add(w.makeBarStateFn())
+	add(w.barConstructor())
+	for fn := range w.heapSenders() {
+		add(fn)
+	}
+	for _, s := range []string{"mpb.unwrap", "mpb.(*Bar).wSyncTable", "mpb.(*bState).wSyncTable", "decor.(WC).Format", "mpb.(*bState).draw", "mpb.(*Bar).render"} {
+		add(w.Func(s))
+	}
+	// exported API entry points are roots of their own
+	for _, fn := range w.ModFns {
+		if fn.Parent() == nil && w.isClientEntry(fn) {
+			a[fn] = true
+		}
+	}
+	w.anchorSet = a
+	return a
+}
+
+// helperInline: inline private helpers (same package as root, not an anchor, no go statement
+// inside) so that extracting a block into a helper does not change what a rule sees.
+func (w *World) helperInline(root *ssa.Function, opaque ...*ssa.Function) func(ssa.CallInstruction, *ssa.Function) bool {
+	anch := w.anchors()
+	op := map[*ssa.Function]bool{}
+	for _, f := range opaque {
+		if f != nil {
+			op[f] = true
+		}
+	}
+	return func(_ ssa.CallInstruction, callee *ssa.Function) bool {
+		if callee.Pkg != root.Pkg && !(root.Parent() != nil && callee.Pkg == rootFn(root).Pkg) {
+			return false
+		}
+		if op[callee] || (anch[callee] && callee != root) {
+			return false
+		}
+		return true
+	}
+}
+
+// unit: root plus the private helpers it reaches through static calls (depth <= 3).
+func (w *World) unit(root *ssa.Function) map[*ssa.Function]bool {
+	out := map[*ssa.Function]bool{root: true}
+	inl := w.helperInline(root)
+	var rec func(fn *ssa.Function, d int)
+	rec = func(fn *ssa.Function, d int) {
+		if d > 3 {
+			return
+		}
+		for _, b := range fn.Blocks {
+			for _, in := range b.Instrs {
+				var c *ssa.CallCommon
+				switch x := in.(type) {
+				case *ssa.Call:
+					c = &x.Call
+				case *ssa.Defer:
+					c = &x.Call
+				}
+				if c == nil {
+					continue
+				}
+				sc := c.StaticCallee()
+				if sc == nil || sc.Blocks == nil || out[sc] || !w.modSet[sc] {
+					continue
+				}
+				if !inl(nil, sc) {
+					continue
+				}
+				out[sc] = true
+				rec(sc, d+1)
+			}
+		}
+	}
+	rec(root, 0)
+	return out
 }
